@@ -58,8 +58,11 @@ def run(tier):
             continue
         pos = starts[len(starts) // 2]
         for k in range(1, kmax + 1):
-            hh = list(h)
-            hh.insert(pos, {"a": "StorageFault", "r": h[pos]["r"], "k": k, "ops": [], "urg": "-"})
+            # cut after the faulted sync: TLC generated the rest assuming it succeeded (later
+            # edits could be invalid operations otherwise); the harness lets the sync run, then
+            # syncs everybody to quiescence
+            hh = list(h[:pos]) + [{"a": "StorageFault", "r": h[pos]["r"], "k": k, "ops": [], "urg": "-"},
+                                  h[pos]]
             sweep.append(hh)
     gsw = consts(Replicas={"r1", "r2"}, Tasks={"u1"}, Props={"p", "q"}, Vals={"a", "b"},
                  BigVals={"b"})
